@@ -30,6 +30,8 @@ CONSTANTS
   Width,        \* [TypeSet -> Nat] bytes per value (String: nominal, see TdmsLayout)
   Unsized,      \* subset of TypeSet without a fixed width (String)
   MaxSegs, NVals, KVals,
+  SVals,        \* size variants of unsized (string) channels: bytes per value beyond the nominal width; a string
+                \* channel's raw data index carries its byte size, which may change while the value count stays
   Inherit,      \* TRUE: all valid encodings; FALSE: only the explicit encoding
   Layouts,      \* subset of {"contig","il"}
   Orders,       \* subset of {"le","be"}
@@ -62,7 +64,8 @@ AppendNew(order, ps) ==
   ELSE AppendNew(IF \E i \in DOMAIN order : order[i] = Head(ps) THEN order ELSE Append(order, Head(ps)), Tail(ps))
 
 ChunkBytesOf(objs) ==   \* bytes of one chunk of raw data for an object list
-  SumSeq([i \in DOMAIN objs |-> IF objs[i].has /\ objs[i].p \in Chans THEN objs[i].n * Width[ty[objs[i].p]] ELSE 0])
+  SumSeq([i \in DOMAIN objs |-> IF objs[i].has /\ objs[i].p \in Chans
+                                  THEN objs[i].n * (Width[ty[objs[i].p]] + objs[i].sv) ELSE 0])
 
 (* --------------------------- explicit layer --------------------------- *)
 \* explicit segment: [objs: Seq([p, has, n, pu]), k, il, be]; pu = sequence of <<name, value>> property updates
@@ -77,11 +80,13 @@ InterleaveOK(objs) ==
 PropUpds == {<<>>} \cup {<<<<nm, v>>>> : nm \in PropNames, v \in PropVals}
 
 DataChoices(L) == {g \in [DOMAIN L -> {None} \cup NVals] : \A i \in DOMAIN L : L[i] \notin Chans => g[i] = None}
+SizeChoices(L, f) == {g \in [DOMAIN L -> SVals] :
+                        \A i \in DOMAIN L : (L[i] \notin Chans \/ f[i] = None \/ ty[L[i]] \notin Unsized) => g[i] = 0}
 PropChoices(L) == {g \in [DOMAIN L -> PropUpds] : Cardinality({i \in DOMAIN L : g[i] # <<>>}) <= MaxPropObjs}
 
-MkExpl(L, f, pu, k, lay, ord) ==
+MkExpl(L, f, sv, pu, k, lay, ord) ==
   [objs |-> [i \in DOMAIN L |-> [p |-> L[i], has |-> f[i] # None, n |-> IF f[i] = None THEN 0 ELSE f[i],
-                                  pu |-> pu[i]]],
+                                  sv |-> sv[i], pu |-> pu[i]]],
    k |-> k, il |-> (lay = "il"), be |-> (ord = "be")]
 
 WellFormed(E) ==
@@ -148,12 +153,13 @@ ExplicitView == ViewOf(expl)
 \* encoder of the harness only -- the reader model never looks at it.
 Kinds == {"full", "same", "nodata", "unlisted"}
 
-RECURSIVE LastFull(_, _)      \* n of the most recent full raw-data index given for path p, or None
+RECURSIVE LastFull(_, _)      \* <<n, sv>> of the most recent full raw-data index given for path p, or <<None, 0>>
 LastFull(f, p) ==
-  IF f = <<>> THEN None
+  IF f = <<>> THEN <<None, 0>>
   ELSE LET s == Last(f) IN
        IF s.meta /\ \E i \in DOMAIN s.listed : s.listed[i].p = p /\ s.listed[i].kind = "full"
-       THEN s.listed[CHOOSE i \in DOMAIN s.listed : s.listed[i].p = p /\ s.listed[i].kind = "full"].n
+       THEN LET e == s.listed[CHOOSE i \in DOMAIN s.listed : s.listed[i].p = p /\ s.listed[i].kind = "full"]
+            IN <<e.n, e.sv>>
        ELSE LastFull(Front(f), p)
 
 PrevList == IF expl = <<>> THEN <<>> ELSE Last(expl).objs
@@ -161,10 +167,11 @@ PrevList == IF expl = <<>> THEN <<>> ELSE Last(expl).objs
 ValidKind(E, i, kind, newList) ==
   LET o == E.objs[i] IN
   CASE kind = "full"     -> o.has
-    [] kind = "same"     -> o.has /\ LastFull(file, o.p) = o.n                               \* R1
+    [] kind = "same"     -> o.has /\ LastFull(file, o.p) = <<o.n, o.sv>>                     \* R1
     [] kind = "nodata"   -> ~o.has                                                            \* R4
     [] kind = "unlisted" -> /\ ~newList /\ i <= Len(PrevList) /\ PrevList[i].p = o.p         \* R2
-                            /\ PrevList[i].has = o.has /\ (o.has => PrevList[i].n = o.n)
+                            /\ PrevList[i].has = o.has
+                            /\ (o.has => PrevList[i].n = o.n /\ PrevList[i].sv = o.sv)
                             /\ o.pu = <<>>
 
 ValidEnc(E, enc) ==
@@ -186,12 +193,13 @@ EncSeg(E, enc) ==
   [meta |-> enc.meta, newList |-> enc.newList, be |-> E.be, il |-> E.il, k |-> E.k,
    bytes |-> E.k * ChunkBytesOf(E.objs),
    listed |-> SelectSeq([i \in DOMAIN E.objs |->
-                           [p |-> E.objs[i].p, kind |-> enc.kinds[i], n |-> E.objs[i].n,
+                           [p |-> E.objs[i].p, kind |-> enc.kinds[i], n |-> E.objs[i].n, sv |-> E.objs[i].sv,
                             ty |-> IF E.objs[i].p \in Chans THEN ty[E.objs[i].p] ELSE "none",
-                            size |-> IF E.objs[i].p \in Chans THEN E.objs[i].n * Width[ty[E.objs[i].p]] ELSE 0,
+                            size |-> IF E.objs[i].p \in Chans
+                                     THEN E.objs[i].n * (Width[ty[E.objs[i].p]] + E.objs[i].sv) ELSE 0,
                             props |-> E.objs[i].pu]],
                         LAMBDA e : e.kind # "unlisted"),
-   layout |-> [i \in DOMAIN E.objs |-> [p |-> E.objs[i].p, has |-> E.objs[i].has, n |-> E.objs[i].n,
+   layout |-> [i \in DOMAIN E.objs |-> [p |-> E.objs[i].p, has |-> E.objs[i].has, n |-> E.objs[i].n, sv |-> E.objs[i].sv,
                                         ty |-> IF E.objs[i].p \in Chans THEN ty[E.objs[i].p] ELSE "none"]]]
 
 (* ----------------------------- reader model --------------------------- *)
@@ -285,9 +293,9 @@ Init == /\ file = <<>> /\ expl = <<>> /\ status = "ok"
 
 AppendSegment ==
   /\ status = "ok" /\ Len(file) < MaxSegs
-  /\ \E L \in ObjLists : \E f \in DataChoices(L) : \E pu \in PropChoices(L) :
+  /\ \E L \in ObjLists : \E f \in DataChoices(L) : \E sv \in SizeChoices(L, f) : \E pu \in PropChoices(L) :
      \E k \in KVals \cup {0} : \E lay \in Layouts : \E ord \in Orders :
-       LET E == MkExpl(L, f, pu, k, lay, ord) IN
+       LET E == MkExpl(L, f, sv, pu, k, lay, ord) IN
        /\ WellFormed(E)
        /\ \E enc \in Encodings(E) :
             /\ file' = Append(file, EncSeg(E, enc))
@@ -307,14 +315,14 @@ AppendForbidden ==
         /\ file' = <<BadSeg(<<>>, <<>>, FALSE, 0, 0)>>
      \/ /\ "same-unseen" \in Forbidden
         /\ \E c \in Chans : ~Seen(c) /\ \E nl \in BOOLEAN :
-             file' = Append(file, [BadSeg(<<[p |-> c, kind |-> "same", n |-> 0, ty |-> ty[c], size |-> 0, props |-> <<>>]>>,
+             file' = Append(file, [BadSeg(<<[p |-> c, kind |-> "same", n |-> 0, sv |-> 0, ty |-> ty[c], size |-> 0, props |-> <<>>]>>,
                                           <<>>, TRUE, 0, 0) EXCEPT !.newList = nl])
      \/ /\ "type-change" \in Forbidden
         /\ \E c \in Chans : \E t \in TypeSet \ {ty[c]} :
              /\ ExplTyped(expl, c)
              /\ \E n \in NVals \ {0} :
-                file' = Append(file, [BadSeg(<<[p |-> c, kind |-> "full", n |-> n, ty |-> t, size |-> n * Width[t], props |-> <<>>]>>,
-                                             <<[p |-> c, has |-> TRUE, n |-> n, ty |-> t]>>, TRUE, 1, n * Width[t])
+                file' = Append(file, [BadSeg(<<[p |-> c, kind |-> "full", n |-> n, sv |-> 0, ty |-> t, size |-> n * Width[t], props |-> <<>>]>>,
+                                             <<[p |-> c, has |-> TRUE, n |-> n, sv |-> 0, ty |-> t]>>, TRUE, 1, n * Width[t])
                                       EXCEPT !.newList = TRUE])
   /\ status' = "rejected"
   /\ UNCHANGED <<expl, ty>>
